@@ -197,7 +197,26 @@ func (x *Exec) frameSetup(u *Unit, fr *Frame) {
 				continue
 			}
 			if it == "anything" {
-				x.frameOn = false
+				// only the entries named by `keeps` are checked (they must not change on objects that existed before)
+				x.frameKeepOnly = map[string]bool{}
+				for _, cc := range u.contracts() {
+					for _, l := range x.keptKeys(cc) {
+						x.frameKeepOnly[l.key] = true
+						x.heapSort[l.key] = l.sort
+					}
+				}
+				if len(x.frameKeepOnly) == 0 {
+					x.frameOn = false
+					return
+				}
+				x.frameAllowed = map[string][]lvLoc{}
+				if len(props) == 0 {
+					props = c.Props
+				}
+				if len(props) == 0 {
+					props = safetyProps
+				}
+				x.frameProps = props
 				return
 			}
 			for _, l := range x.lvalueLocs(env, parseExpr(it, c.Where)) {
@@ -218,6 +237,9 @@ func (x *Exec) frameSetup(u *Unit, fr *Frame) {
 // state only at allowed locations or at objects allocated since. nil = no constraint.
 func (x *Exec) frameGoal(k string, fin *Term) *Term {
 	if !x.frameOn || strings.HasPrefix(k, "local:") {
+		return nil
+	}
+	if x.frameKeepOnly != nil && !x.frameKeepOnly[k] {
 		return nil
 	}
 	srt, ok := x.heapSort[k]
